@@ -4,7 +4,7 @@
    and ANY memory contents (the reference index depends on the data), all reads and writes of
    fill_segment stay inside the allocated blocks, and the address table is long enough. *)
 From Coq Require Import ZifyNat ZifyBool.
-From Dryoc Require Import Impl.Argon2 Refine.Argon2.
+From Dryoc Require Import Spec.Argon2 Impl.Argon2 Refine.Argon2.
 Import Argon2Impl.
 Open Scope Z_scope.
 Ltac Zify.zify_post_hook ::= Z.div_mod_to_equations.
@@ -159,4 +159,137 @@ Proof.
   intros Hm. destruct (norm_memory_one_lane m Hm) as (E & Hseg & Hr). rewrite E.
   unfold geom. cbn [segment_length lane_length lanes memory]. rewrite repeat_length.
   unfold mul32, SYNC_POINTS. rewrite w32_small by lia. lia.
+Qed.
+
+(* ------------------------------------------------------------------ the indices are RFC 9106's *)
+
+(* the (previous, reference lane, reference index, current) indices used by each iteration, in order *)
+Fixpoint seg_loop_trace (n : nat) (I : inst) (pass lane slice : Z) (dia : bool) (i curr prev : Z) : list (Z * Z * Z * Z * Z) :=
+  match n with
+  | O => []
+  | S n' =>
+    let prev := if curr mod lane_length I =? 1 then curr - 1 else prev in
+    let pseudo_rand := if dia then nthz (pseudo_rands I) (Z.to_nat i) else nthz (mem_at I prev) 0 in
+    let ref_lane := if (pass =? 0) && (slice =? 0) then lane else Z.shiftr pseudo_rand 32 mod lanes I in
+    let ref_index := index_alpha (segment_length I) (lane_length I) pass slice i (Z.land pseudo_rand mask32) (ref_lane =? lane) in
+    let nb := fill_block (mem_at I prev) (mem_at I (lane_length I * ref_lane + ref_index)) (mem_at I curr) (negb (pass =? 0)) in
+    (prev, ref_lane, ref_index, curr, Z.land pseudo_rand mask32) ::
+    seg_loop_trace n' (set_memory I (upd_block (memory I) (Z.to_nat curr) nb)) pass lane slice dia (i + 1) (curr + 1) (prev + 1)
+  end.
+
+(* RFC 9106 3.4: at column j = slice * seg + i of lane l the new block is computed from B[l][(j - 1) mod q]
+   and B[l'][z], where z is the mapping of J1 into the reference set (Argon2Spec.ref_pos) *)
+Definition rfc_indices (I : inst) (pass lane slice i : Z) (e : Z * Z * Z * Z * Z) : Prop :=
+  let '(prev, ref_lane, ref_index, curr, J1) := e in
+  let q := lane_length I in
+  let j := slice * segment_length I + i in
+  curr = lane * q + j /\ prev = lane * q + (j - 1) mod q /\ 0 <= ref_lane < lanes I /\
+  (pass = 0 -> slice = 0 -> ref_lane = lane) /\ 0 <= J1 < 2 ^ 32 /\
+  ref_index = Argon2Spec.ref_pos (segment_length I) pass slice i J1 (ref_lane =? lane).
+
+Lemma land_mask32_range x : 0 <= Z.land x mask32 < 2 ^ 32.
+Proof. change mask32 with (Z.ones 32). rewrite Z.land_ones by lia. apply Z.mod_pos_bound. lia. Qed.
+
+Lemma prev_step L lane curr prev j : 0 < L -> curr = lane * L + j -> 0 <= j -> j + 1 < L ->
+  (curr mod L = 1 \/ prev = (if curr mod L =? 0 then curr + L - 1 else curr - 1)) ->
+  (curr + 1) mod L = 1 \/
+  (if curr mod L =? 1 then curr - 1 else prev) + 1 = (if (curr + 1) mod L =? 0 then curr + 1 + L - 1 else curr + 1 - 1).
+Proof.
+  intros HL Hc Hj Hj1 Hprev.
+  assert (Hm : curr mod L = j) by (symmetry; apply (Z.mod_unique curr L lane j); lia).
+  assert (Hm1 : (curr + 1) mod L = j + 1) by (symmetry; apply (Z.mod_unique (curr + 1) L lane (j + 1)); lia).
+  rewrite Hm in *. rewrite Hm1. clear Hm Hm1.
+  destruct (Z.eq_dec j 0) as [E0|E0]; [left; lia|right].
+  destruct (Z.eqb_spec (j + 1) 0) as [E|E]; [lia|].
+  destruct (Z.eqb_spec j 1) as [E1|E1]; [lia|].
+  destruct Hprev as [Hp|Hp]; [contradiction|]. rewrite Hp. destruct (Z.eqb_spec j 0); lia.
+Qed.
+
+Lemma seg_loop_trace_rfc n : forall I pass lane slice dia i curr prev,
+  geom I -> 7 * segment_length I <= 2 ^ 32 -> 0 <= pass -> 0 <= lane < lanes I -> 0 <= slice <= 3 -> 0 <= i ->
+  (pass = 0 -> slice = 0 -> 2 <= i) ->
+  i + Z.of_nat n = segment_length I ->
+  curr = lane * lane_length I + slice * segment_length I + i ->
+  (n = O \/ curr mod lane_length I = 1 \/ prev = (if curr mod lane_length I =? 0 then curr + lane_length I - 1 else curr - 1)) ->
+  forall k e, nth_error (seg_loop_trace n I pass lane slice dia i curr prev) k = Some e ->
+  rfc_indices I pass lane slice (i + Z.of_nat k) e.
+Proof.
+  induction n as [|n IH]; intros I pass lane slice dia i curr prev Hg Hmax Hpass Hlane Hslice Hi Hfirst Hn Hcurr Hprev k e Hk.
+  - destruct k; discriminate.
+  - cbn [seg_loop_trace] in Hk.
+    destruct Hprev as [Hn0|Hprev]; [discriminate|].
+    pose proof Hg as (Hseg & HL & Hlanes & Hmem).
+    set (L := lane_length I) in *. set (seg := segment_length I) in *.
+    destruct (lane_range lane (lanes I) L Hlane ltac:(lia)) as [HlaneL HlaneU].
+    assert (Hss : 0 <= slice * seg <= 3 * seg) by nia.
+    assert (Hmodc : curr mod L = curr - lane * L) by (symmetry; apply (Z.mod_unique curr L lane (curr - lane * L)); lia).
+    set (prev' := if curr mod L =? 1 then curr - 1 else prev) in *.
+    destruct k as [|k].
+    + (* this iteration *)
+      cbn [nth_error] in Hk. injection Hk as <-. rewrite Z.add_0_r.
+      set (pr := if dia then nthz (pseudo_rands I) (Z.to_nat i) else nthz (mem_at I prev') 0).
+      set (ref_lane := if (pass =? 0) && (slice =? 0) then lane else Z.shiftr pr 32 mod lanes I).
+      unfold rfc_indices. fold L seg.
+      assert (Hrl : 0 <= ref_lane < lanes I).
+      { subst ref_lane. destruct ((pass =? 0) && (slice =? 0)); [exact Hlane|]. apply Z.mod_pos_bound. lia. }
+      assert (HJ : 0 <= Z.land pr mask32 < 2 ^ 32) by apply land_mask32_range.
+      split; [lia|]. split; [|split; [exact Hrl|split; [|split; [exact HJ|]]]].
+      * (* previous block: (j - 1) mod q within the lane *)
+        subst prev'. remember (slice * seg + i) as j eqn:Ej.
+        assert (Hj : curr = lane * L + j) by lia.
+        assert (HjR : 0 <= j < L) by lia.
+        clear IH Hmem HlaneU Hmax Hfirst Hn Hss Hcurr Ej HJ Hrl. clearbody pr ref_lane.
+        destruct (Z.eq_dec j 0) as [Hj0|Hj0].
+        -- rewrite Hj0. replace ((0 - 1) mod L) with (L - 1) by (apply (Z.mod_unique (0 - 1) L (-1) (L - 1)); lia).
+           destruct (Z.eqb_spec (curr mod L) 1) as [E|E]; [lia|].
+           destruct Hprev as [Hp|Hp]; [lia|]. rewrite Hp. destruct (Z.eqb_spec (curr mod L) 0); lia.
+        -- rewrite (Z.mod_small (j - 1) L) by lia.
+           destruct (Z.eqb_spec (curr mod L) 1) as [E|E]; [lia|].
+           destruct Hprev as [Hp|Hp]; [lia|]. rewrite Hp. destruct (Z.eqb_spec (curr mod L) 0); lia.
+      * intros Hp0 Hs0. subst ref_lane. rewrite Hp0, Hs0. reflexivity.
+      * (* the reference index is the RFC's mapping *)
+        rewrite HL. apply index_alpha_spec; [|exact HJ].
+        unfold position_ok. split; [exact Hseg|]. split; [exact Hmax|]. split; [exact Hpass|]. split; [exact Hslice|].
+        split; [lia|]. intros Hp0 Hs0. split; [apply Hfirst; assumption|].
+        subst ref_lane. rewrite Hp0, Hs0. cbn [Z.eqb andb]. apply Z.eqb_refl.
+    + (* later iterations *)
+      cbn [nth_error] in Hk.
+      replace (i + Z.of_nat (S k)) with ((i + 1) + Z.of_nat k) by lia.
+      match type of Hk with nth_error (seg_loop_trace n ?J _ _ _ _ _ _ _) _ = _ => set (I' := J) in * end.
+      assert (Hs' : segment_length I' = seg) by reflexivity.
+      assert (HL' : lane_length I' = L) by reflexivity.
+      assert (Hla' : lanes I' = lanes I) by reflexivity.
+      assert (Hg' : geom I').
+      { unfold geom. rewrite Hs', HL', Hla'. subst I'. unfold set_memory. cbn [memory]. rewrite upd_block_length. auto. }
+      assert (Hmax' : 7 * segment_length I' <= 2 ^ 32) by (rewrite Hs'; exact Hmax).
+      assert (Hlane' : 0 <= lane < lanes I') by (rewrite Hla'; exact Hlane).
+      assert (Hf' : pass = 0 -> slice = 0 -> 2 <= i + 1) by (intros Hp0 Hs0; specialize (Hfirst Hp0 Hs0); lia).
+      assert (Hn' : i + 1 + Z.of_nat n = segment_length I') by (rewrite Hs'; lia).
+      assert (Hc' : curr + 1 = lane * lane_length I' + slice * segment_length I' + (i + 1)) by (rewrite Hs', HL'; lia).
+      assert (Hp' : n = O \/ (curr + 1) mod lane_length I' = 1 \/
+                    prev' + 1 = (if (curr + 1) mod lane_length I' =? 0 then curr + 1 + lane_length I' - 1 else curr + 1 - 1)).
+      { rewrite HL'. destruct n as [|n']; [left; reflexivity|right].
+        subst prev'. apply (prev_step L lane curr prev (slice * seg + i)); [lia|lia|lia| |exact Hprev].
+        clear IH Hk Hprev Hmem Hg Hg'. lia. }
+      pose proof (IH I' pass lane slice dia (i + 1) (curr + 1) (prev' + 1) Hg' Hmax' Hpass Hlane' Hslice ltac:(lia) Hf' Hn' Hc' Hp' k e Hk) as R.
+      unfold rfc_indices in *. rewrite Hs', HL', Hla' in R. exact R.
+Qed.
+
+(* what one iteration does to the memory, given its indices: B[curr] <- G(B[prev], B[ref]) (xor B[curr] after pass 0) *)
+Definition apply_entry (L : Z) (with_xor : bool) (M : list block) (e : Z * Z * Z * Z * Z) : list block :=
+  let '(prev, ref_lane, ref_index, curr, _) := e in
+  upd_block M (Z.to_nat curr)
+    (fill_block (nth (Z.to_nat prev) M zero_block) (nth (Z.to_nat (L * ref_lane + ref_index)) M zero_block)
+                (nth (Z.to_nat curr) M zero_block) with_xor).
+
+Lemma fold_entry_cons L x M e es : fold_left (apply_entry L x) (e :: es) M = fold_left (apply_entry L x) es (apply_entry L x M e).
+Proof. reflexivity. Qed.
+
+(* the loop is exactly its trace: the memory it leaves is the trace's steps applied in order *)
+Lemma seg_loop_follows_trace n : forall I pass lane slice dia i curr prev,
+  memory (seg_loop n I pass lane slice dia i curr prev) =
+  fold_left (apply_entry (lane_length I) (negb (pass =? 0))) (seg_loop_trace n I pass lane slice dia i curr prev) (memory I).
+Proof.
+  induction n as [|n IH]; intros I pass lane slice dia i curr prev; [reflexivity|].
+  cbn [seg_loop seg_loop_trace]. rewrite fold_entry_cons. rewrite IH. reflexivity.
 Qed.
